@@ -2675,11 +2675,13 @@ def _xor(self, other: object) -> bool:
 
 def _non_tensor_items(self, include_nested=False):
     if include_nested:
-        return self.non_tensor_items() + self._tensordict.non_tensor_items(
-            include_nested=True
+        return list(self._non_tensordict.items()) + list(
+            self._tensordict.non_tensor_items(include_nested=True)
         )
     elif is_tensorclass(self):
-        return list(self._non_tensordict.items())
+        return list(self._non_tensordict.items()) + list(
+            self._tensordict.non_tensor_items()
+        )
     else:
         return self._tensordict.non_tensor_items()
 
